@@ -36,6 +36,7 @@ var (
 //verif:conc
 //verif:unroll 2
 //verif:timeout 600
+//verif:deadlock 1
 func VerifC15_StagesRunInOrder() {
 	sc := &scenarios.Scenario{Name: "scn"}
 	sc.RunFn = func(*f1testing.T) {
@@ -86,4 +87,5 @@ func VerifC15_StagesRunInOrder() {
 //verif:conc
 //verif:unroll 2
 //verif:timeout 600
+//verif:deadlock 1
 func VerifC05_ConsecutivePoolsComplete() { VerifC15_StagesRunInOrder() }
